@@ -32,6 +32,10 @@ fn real_main() {
         "C15" => c15::run(tier),
         "C19" => c19::run(tier),
         "C12" => c12c::run(tier),
+        // client halves of broker-side properties (run before busmc, see `check`)
+        "C04" => c06::run_prop("C04", tier, Some(&["p3-events", "p3b-burst", "p3c-siblings"])),
+        "C05" => c06::run_prop("C05", tier, Some(&["p4-channels"])),
+        "C10" => c06::run_prop("C10", tier, Some(&["p5-listeners", "p5b-listener-lifecycle"])),
         other => mcx::machinery(format!("unknown property {other}")),
     }
 }
